@@ -15,7 +15,7 @@ else
   git -C /repo worktree add --detach -q $wt HEAD || exit 2
   git -C $wt apply $d/patch.diff || { git -C /repo worktree remove --force $wt; exit 2; }
 fi
-cd /verif
+cd ${VERIF_HOME:-/verif}
 VERIF_REPO=$wt VERIF_OUT=$out VERIF_NO_SHRINK=${VERIF_NO_SHRINK-1} ./check $id $tier > $out/log 2>&1; rc=$?
 if [ -n "$SEED_INPLACE" ]; then git -C /repo checkout -- .; else git -C /repo worktree remove --force $wt; fi
 echo "rc=$rc violations=$(grep -c '^VIOLATION' $out/log)"
